@@ -18,6 +18,11 @@ with the client closed by SOMEONE ELSE than the connection task, at a moment cho
            "busy"    the generator is in the middle of handling request #after-1 (awaiting something else); it finds its
                      client closed when it resumes, and goes back to `yield` (optionally with a further complete request
                      of the peer already received: it must not be delivered any more)
+           "oc"      (round 7) on_connection() of the client is still running: as a coroutine (nothing received yet) or as a
+                     generator that has consumed the login request and answered it; the client gets closed there (by
+                     on_connection itself = "inline", or by a helper task / the on_connection task / another client's handler
+                     while on_connection awaits), then on_connection RETURNS NORMALLY: on_disconnection runs, and no handle()
+                     generator is ever started on the closed client (`extra`: one more request pipelined behind)
   how      "aclose" | "force" (`aclose_forcefully(client)`) | "cancel" (`client.aclose()` run in a task that is cancelled
            after `cancel_after` loop turns)
   sender   true: while all this happens a task started by on_connection() is parked INSIDE `client.send_packet()` of a packet
@@ -70,7 +75,7 @@ BIG_PACKET = 256 * 1024           # far more than the (shrunk) socket buffers + 
 SMALL_BUF = 4096
 BIG_TEXT = "x" * BIG_PACKET
 CLOSERS = ("helper", "onconn", "other", "inline", "peer")
-MOMENTS = ("parked", "busy")
+MOMENTS = ("parked", "busy")           # (+ "oc", round 7: own corpus block)
 
 
 class Bounds:
@@ -166,6 +171,8 @@ class Scenario:
         self.ngen: dict[str, int] = {"A": 0, "B": 0}
         self.finals: dict[str, dict[str, list[str]]] = {"A": {}, "B": {}}
         self.ready = asyncio.Event()        # A is where the case wants it to be when it gets closed
+        self.oc_go = asyncio.Event()        # moment oc, coroutine flavour with `extra`: the peer has sent its pipelined request
+        self.gens_at_close: int | None = None    # handle() generators of A started when the closing call returned
         self.gate = asyncio.Event()         # moment busy: what A's generator waits for while its client is being closed
         self.closer_state = "not-started"
         self.closing_after: bool | None = None   # client.is_closing() right after the closing call returned
@@ -231,10 +238,12 @@ class Scenario:
             await self.do_close(client)
         except BaseException as e:  # noqa: BLE001
             self.closing_after = bool(client.is_closing())
+            self.gens_at_close = self.ngen["A"]
             self.closer_state = "failed:" + type(e).__name__
             self.gate.set()
             raise
         self.closing_after = bool(client.is_closing())
+        self.gens_at_close = self.ngen["A"]
         self.closer_state = "done"
         self.gate.set()
 
@@ -259,6 +268,21 @@ class Scenario:
             self.spawn(self.close_a, "helper")
         self.ready.set()
         await self.gate.wait()
+
+
+async def _oc_point(sc: Scenario, who: str, client: Any) -> None:
+    """moment oc: A's on_connection() is where the case wants the client to be closed (it returns normally afterwards)"""
+    if who != "A" or sc.moment != "oc":
+        return
+    if sc.oc == "coro" and sc.case.get("extra"):
+        await sc.oc_go.wait()           # (the peer's pipelined request is on its way)
+    if sc.closer == "inline":
+        await sc.close_a("inline", wait_ready=False)
+        return
+    if sc.closer == "helper":
+        sc.spawn(sc.close_a, "helper")
+    sc.ready.set()
+    await sc.gate.wait()
 
 
 class Handler(AsyncStreamRequestHandler[str, str]):
@@ -287,6 +311,7 @@ class Handler(AsyncStreamRequestHandler[str, str]):
     async def _oc_coro(self, client: Any) -> None:
         who = self._oc_common(client)
         await asyncio.sleep(0)
+        await _oc_point(self.sc, who, client)
         self.sc.ev(who, "oc:done")
 
     async def _oc_gen(self, client: Any):
@@ -299,6 +324,7 @@ class Handler(AsyncStreamRequestHandler[str, str]):
             sc.ev(who, f"req:{req}")
             if not (sc.sender and who == "A"):
                 await client.send_packet("welcome")
+            await _oc_point(sc, who, client)
         except GeneratorExit:
             sc.ev(who, "oc:closed")
             raise
@@ -514,7 +540,7 @@ async def _session(case: dict, b: Bounds) -> list[str]:
             suffix = b""
             if last and case.get("partial"):
                 suffix = b"par"
-            if last and busy and case.get("extra"):
+            if last and (busy or sc.moment == "oc") and case.get("extra"):
                 suffix = b"extra\n" + suffix
             if last and busy:
                 A.send(r.encode() + b"\n" + suffix)       # (no answer awaited: the handler is kept busy with it)
@@ -523,6 +549,12 @@ async def _session(case: dict, b: Bounds) -> list[str]:
                 await wait_io(lambda: sc.nreq["A"] >= i + 1, b, f"A:request-{i}")
             else:
                 await A.ask(r, suffix)
+        if sc.moment == "oc":
+            if case.get("extra") and not reqs:
+                A.send(b"extra\n")       # (coroutine flavour: a request pipelined behind the close in on_connection)
+            for n in range(10):
+                await asyncio.sleep(0 if n % 5 else 0.001)
+            sc.oc_go.set()
         # ---- the close
         port_a = A.port
         if sc.closer == "peer":
@@ -581,6 +613,8 @@ async def _session(case: dict, b: Bounds) -> list[str]:
         lines.append(f"A-gens started={sc.ngen['A']} finalised=" + ",".join(f"{k}:{len(v)}" for k, v in sorted(fin.items())))
         if sc.closer not in ("peer",):
             lines.append(f"closer {sc.closer_state}")
+            if sc.gens_at_close is not None:
+                lines.append(f"A-gens-after-close {sc.ngen['A'] - sc.gens_at_close}")
         if sc.sender:
             lines.append(f"sender {sc.sender_state}")
         lines.append(f"serving {int(server.is_serving())} servetask {'running' if not serve.done() else 'done'}")
@@ -588,6 +622,7 @@ async def _session(case: dict, b: Bounds) -> list[str]:
             lines.append(f"A-hang connection task still running {b.turns} loop turns after the close")
     finally:
         sc.gate.set()
+        sc.oc_go.set()
         for p in peers:
             await p.close()
         try:
@@ -690,7 +725,14 @@ def normalise(case: dict) -> dict:
     """make the combination meaningful (see the module docstring)"""
     c = dict(case)
     gen = c.get("oc", "coro") == "gen"
-    if c.get("moment") == "busy":
+    if c.get("moment") == "oc":
+        # the close happens inside on_connection(): a coroutine has received nothing, a generator exactly the login request
+        c["after"] = 1 if gen else 0
+        c["sender"] = False
+        c["partial"] = False
+        if c.get("closer") == "peer":
+            c["closer"] = "inline"
+    elif c.get("moment") == "busy":
         c["after"] = max(int(c.get("after", 1)), 2 if gen else 1)     # the request being handled is one of handle()
     else:
         c["extra"] = False
@@ -699,6 +741,8 @@ def normalise(case: dict) -> dict:
         c["sender"] = False
         if c.get("how") == "cancel":
             c["how"] = "aclose"
+    if c.get("moment") == "oc":
+        c["extra"] = bool(case.get("extra"))
     if c.get("sender") and int(c.get("after", 1)) == 0:
         c["sender"] = False         # (the close comes before the helper task could start its send: nothing to park)
     if c.get("sender"):
@@ -721,6 +765,12 @@ def describe(case: dict) -> str:
         how += ", while a helper task started by on_connection() is parked in client.send_packet() (peer not reading) with the send lock"
     by = {"helper": "a task spawned by the handler generator", "onconn": "a task spawned by on_connection()",
           "other": "another client's handler", "inline": "the generator itself", "peer": "the peer (disconnection)"}[case.get("closer", "helper")]
+    if case.get("moment") == "oc":
+        flav = ("on_connection() as a generator, after it had consumed and answered the login request"
+                if case.get("oc") == "gen" else "on_connection() as a coroutine")
+        by_oc = "on_connection() itself" if case.get("closer") == "inline" else by + " while on_connection() was waiting"
+        return (f"client closed ({how}) inside {flav}, by {by_oc}; on_connection() then returned normally"
+                f"{' (one more request pipelined behind)' if case.get('extra') else ''}, {case.get('path')} receive path")
     where = ("the connection task was parked in the transport receive (generator suspended at its yield for request "
              f"#{case.get('after', 1)})") if case.get("moment", "parked") == "parked" else \
         f"the generator was busy with request #{int(case.get('after', 1)) - 1}"
@@ -769,6 +819,12 @@ def oracle(case: dict, real: list[str]) -> str | None:
             return f"{what}: delivered to the generator AFTER the client had been closed: {late}"
         if _get(real, "closer ") != "done":
             return f"{what}: the closing call did not return: closer {_get(real, 'closer ')}"
+        # (round 7) the close is the end of the story: once the closing call has returned (client.is_closing() true) no
+        # handle() generator is started on that client any more
+        gac = _get(real, "A-gens-after-close ")
+        if gac not in (None, "0"):
+            return (f"{what}: {gac} handle() generator(s) started on the client AFTER the closing call had returned "
+                    f"(client.is_closing() was true), expected 0: handler history {ev}")
     # generators: each started one ended exactly once, none open at the end
     active = None
     for e in ev:
@@ -862,6 +918,15 @@ def corpus() -> list[dict]:
             # (the cancelled close without a concurrent sender: cancelled inside the transport's own close)
             cs.append(normalise({**base, "path": path, "closer": "helper", "moment": "parked", "after": 1, "how": how,
                                  "cancel_after": 1}))
+        # (round 7) the client closed inside on_connection() (coroutine / generator after the login request), which returns
+        # normally: by itself, by a helper task, by the task on_connection spawned, by another client's handler; a request
+        # pipelined behind or not: on_disconnection, no handle() generator
+        for closer in ("inline", "helper", "onconn", "other"):
+            for oc in ("coro", "gen"):
+                for extra in (False, True):
+                    cs.append(normalise({**base, "path": path, "closer": closer, "moment": "oc", "oc": oc, "extra": extra,
+                                         "how": "force" if (closer == "other" and extra) else "aclose",
+                                         "spawn": "task" if closer == "helper" else "tg"}))
     return cs
 
 
@@ -869,7 +934,7 @@ def gen_case(rng) -> dict:
     return normalise({
         "layer": "loop", "path": rng.choice(["copy", "buffered"]),
         "closer": rng.choice(["helper", "helper", "onconn", "other", "other", "inline", "peer"]),
-        "moment": rng.choice(["parked", "parked", "busy"]), "how": rng.choice(["aclose", "aclose", "force", "cancel"]),
+        "moment": rng.choice(["parked", "parked", "busy", "oc"]), "how": rng.choice(["aclose", "aclose", "force", "cancel"]),
         "sender": rng.random() < 0.15, "cancel_after": rng.choice([1, 1, 2, 3]),
         "spawn": rng.choice(["tg", "task"]), "after": rng.choice([0, 1, 1, 2, 3, 4]), "per_gen": rng.choice([0, 0, 1, 2, 3]),
         "timeout": rng.choice([None, None, 30.0]), "oc": rng.choice(["coro", "coro", "gen"]),
